@@ -25,7 +25,7 @@ def coll(op, path, mode, n1, n2, body):
 def main():
     chk = vlib.Check("C14")
     quick = chk.tier == "quick"
-    reps = 48 if quick else 512
+    reps = 48 if quick else 1024
     data = json.loads(vlib.harness(["data", "-worlds", "maps"]).stdout)
     bodies = [match(["v", "V"], "==", "2"), match(["v", "V"], "!=", "2"), match(["v", "V"], "==", "1"), match(["v"], "==", "1"), match(["v"], "==", "x"),
               b("or", match(["k"], "==", "b"), match(["zz"], "==", "1")), b("and", match(["k"], "!=", "b"), match(["zz"], "==", "1")),
